@@ -43,7 +43,9 @@ def decode_like_cli(b):
         try:
             return b[3:].decode("utf-8")
         except UnicodeDecodeError:
-            pass
+            # encoding_rs `decode` sniffs the mark for EVERY decoder of the cascade (source.rs), so after a UTF-8 mark the
+            # content is only ever read as UTF-8: invalid content is answered P0028, there is no decoded text to predict
+            return None
     elif b.startswith(b"\xff\xfe") or b.startswith(b"\xfe\xff"):
         return None   # UTF-16 with possibly broken content: decoded text not predicted, only totality is checked
     else:
